@@ -65,7 +65,8 @@ def _case(draw, tier):
     ops = []
     for _ in range(draw(st.integers(1, 4))):
         if draw(st.booleans()):
-            ops.append(["partial", draw(st.sampled_from([1, 1, 2, 2, 3]))])
+            # (given up by closing the iterator, or simply never advanced again while it stays referenced and unfinished)
+            ops.append(["partial", draw(st.sampled_from([1, 1, 2, 2, 3])), draw(st.sampled_from(["close", "close", "keep"]))])
         else:
             ops.append(["full"])
     c["ops"] = ops
@@ -131,6 +132,7 @@ def check(case) -> Outcome:
         return fail("work_before_demand", f"building the query pulled {it.log} from the domain iterator", classes=classes,
                     features=feats)
     first = True
+    kept = []
     for step, op in enumerate(case["ops"]):
         before = len(it.log)
         gen = built.q.evaluate()
@@ -169,7 +171,12 @@ def check(case) -> Outcome:
             if len(got) < want_n and got != q_idx:
                 return fail("wrong_full_result", f"step {step} {op}: the evaluation ended after {got}, qualifying {q_idx} "
                                                  f"(history {case['ops'][:step]})", classes=classes, features=feats)
-            gen.close()
+            if len(op) > 2 and op[2] == "keep":
+                kept.append(gen)
+                if "earlier_iterator_kept_open" not in classes:
+                    classes.append("earlier_iterator_kept_open")
+            else:
+                gen.close()
             if len(got) == want_n and len(got) < len(q_idx) and skipped_before:
                 nontrivial = True
             if "partial" not in classes:
